@@ -184,6 +184,7 @@ def worker(spec, out):
                 out_.append(("assoc", [i, "s"]))
             if n:
                 out_ += [("pop", []), ("nth", [n - 1]), ("update-inc", [0]) if isinstance(m.d[0], int) and not isinstance(m.d[0], bool) else ("nth", [0])]
+            out_ += [("update-ident", [n]), ("update-ident", [0])] if n else [("update-ident", [0])]
             out_ += [("peek", []), ("get", [n]), ("get", [0]), ("contains?", [n]), ("contains?", [0]), ("count", []), ("seq", []), ("into", [[1, None]]), ("empty", []), ("with-meta", ["m1"]), ("transient", [[("conj!", [7]), ("conj!", [8])]]), ("first", []), ("rest", [])]
             if n:
                 out_.append(("transient", [[("assoc!", [0, "t"]), ("pop!", [])]]))
@@ -192,6 +193,7 @@ def worker(spec, out):
                 out_.append(("assoc", [k, 0]))
             for k in (1.0, L([1, 2]), None):
                 out_ += [("dissoc", [k]), ("get", [k]), ("contains?", [k])]
+            out_ += [("update-ident", [K("a")]), ("update-ident", [None]), ("update-const-nil", [1.0])]
             out_ += [("count", []), ("seq", []), ("into", [[(K("a"), 1), (1, 2)]]), ("merge", [[(1.0, "m")]]), ("empty", []), ("with-meta", ["m1"]), ("conj-entry", [V([1, 2]), 5]), ("conj-map", [[(None, 1)]]), ("update-fnil", [1]),
                      ("transient", [[("assoc!", [1, "t"]), ("dissoc!", [K("a")])]]), ("transient", [[("conj!", [(None, 3)])]])]
         elif t == "set":
@@ -336,6 +338,23 @@ def worker(spec, out):
             mm = m.copy()
             mm.d[i] = mm.d[i] + 1
             return (lambda: C("update")(v, i, C("inc"))), mm
+        if op in ("update-ident", "update-const-nil"):
+            # update with a function that may return nil, also for an absent key / the append index of a vector
+            k = args[0]
+            mm = m.copy()
+            if t == "vector":
+                cur = mm.d[k] if k < len(mm.d) else None
+                new = cur if op == "update-ident" else None
+                if k == len(mm.d):
+                    mm.d.append(new)
+                else:
+                    mm.d[k] = new
+            else:
+                old = mm.d.get(mk(k))
+                cur = old[1] if old else None
+                mm.d[mk(k)] = ((old[0] if old else k), cur if op == "update-ident" else None)
+            f = C("identity") if op == "update-ident" else (lambda x: None)
+            return (lambda: C("update")(v, k, f)), mm
         if op == "update-fnil":
             k = args[0]
             mm = m.copy()
